@@ -2,29 +2,37 @@
 From G11 Require Import Timeouts TimeoutsCheck TimeoutsProofs Obligations.
 Open Scope Z_scope.
 
-(* A connection that makes no progress in a phase is closed exactly when that phase's limit has
+(* A connection that makes no progress in a phase is closed exactly when the limit in force has
    elapsed since the phase was entered — after any history `pre` of the connection (any number of
    earlier requests, handshakes, partial heads), for any stalling behaviour `evs` (silence or
-   trickled bytes that do not complete the unit), with the default ReadTimeout = 0. *)
+   trickled bytes that do not complete the unit), with the default ReadTimeout = 0.
+   eff_limit is the limit of the phase (see T15_limit_in_force); only when the source awaits the
+   PROXY header lazily is it the smaller of that limit and the limit of the phase that follows. *)
 Theorem T15_closed_at_limit : forall c pre evs L,
   c_read c = 0 ->
   let s := run c (conn_start c) pre in
-  closed s = None -> limit c (ph s) = Some L -> forallb (stall (ph s)) evs = true ->
+  closed s = None -> eff_limit c s = Some L -> forallb (stall (ph s)) evs = true ->
   entered s + L <= now (run c s evs) ->
   closed (run c s evs) = Some (entered s + L).
-Proof. exact (fun c pre evs L Hr => closed_at_limit c Hr ob_pp_first_touch_is_early pre evs L). Qed.
+Proof. exact (fun c pre evs L Hr => closed_at_limit c Hr pre evs L). Qed.
 Print Assumptions T15_closed_at_limit.
 
-(* ... and never at any other time: if the proxy closes a stalled connection, the phase has a
-   limit and the close happens exactly at phase entry + limit. *)
+(* ... and never at any other time: if the proxy closes a stalled connection, a limit is in force
+   and the close happens exactly at phase entry + limit. *)
 Theorem T15_not_before : forall c pre evs t,
   c_read c = 0 ->
   let s := run c (conn_start c) pre in
   closed s = None -> forallb (stall (ph s)) evs = true ->
   closed (run c s evs) = Some t ->
-  exists L, limit c (ph s) = Some L /\ t = entered s + L.
-Proof. exact (fun c pre evs t Hr => not_before c Hr ob_pp_first_touch_is_early pre evs t). Qed.
+  exists L, eff_limit c s = Some L /\ t = entered s + L.
+Proof. exact (fun c pre evs t Hr => not_before c Hr pre evs t). Qed.
 Print Assumptions T15_not_before.
+
+(* With the source as it is (the PROXY header is awaited by the first call of the handler, before
+   the handshake / request timers are started) the limit in force is the limit of the phase. *)
+Theorem T15_limit_in_force : forall c s, pp_early = true -> eff_limit c s = limit c (ph s).
+Proof. exact eff_limit_early. Qed.
+Print Assumptions T15_limit_in_force.
 
 (* A connection whose request has been received in full is never closed while the origin is awaited. *)
 Theorem T15_upstream_never_cut : forall c pre evs,
@@ -32,7 +40,7 @@ Theorem T15_upstream_never_cut : forall c pre evs,
   let s := run c (conn_start c) pre in
   closed s = None -> ph s = PUp -> forallb (stall PUp) evs = true ->
   closed (run c s evs) = None.
-Proof. exact (fun c pre evs Hr => upstream_never_cut c Hr ob_pp_first_touch_is_early pre evs). Qed.
+Proof. exact (fun c pre evs Hr => upstream_never_cut c Hr pre evs). Qed.
 Print Assumptions T15_upstream_never_cut.
 
 (* The limits of the model are the configured ones the property names, phase by phase;
@@ -69,7 +77,7 @@ Example T15_example :
   let c := mkcfg 420 0 300 360 360 240 true true true in
   let pre := [Tick 10; Done; Tick 15; Done; Tick 5; Bytes] in
   let s := run c (conn_start c) pre in
-  closed s = None /\ ph s = PHead /\ limit c (ph s) = Some 300 /\ entered s = 30 /\
+  closed s = None /\ ph s = PHead /\ eff_limit c s = Some 300 /\ entered s = 30 /\
   closed (run c s [Tick 100; Bytes; Tick 199]) = None /\
   closed (run c s [Tick 100; Bytes; Tick 250; Bytes]) = Some 330.
 Proof. exact (conj eq_refl (conj eq_refl (conj eq_refl (conj eq_refl (conj eq_refl eq_refl))))). Qed.
